@@ -12,6 +12,7 @@ COQ_MODEL_OBS = "(fun c => C07.Corr.model_obs (fst c))"
 COQ_SHARD = 150
 DESIGN_REF = "§5 C07"
 KNOWN_KEY = "nbs-addtablefiles:uninitialized-store-skips-refcheck"
+KNOWN_KEY2 = "nbs-addtablefiles:refcheck-accepts-memtable-only-children"
 TECHNIQUE = ("Coq proof (invariant: committed chunk set closed under references and holding its root, novel tables closed w.r.t. novel+upstream, "
              "has-cache sound; preserved by every put/flush/commit/retry/rebase/peer step) + refutation witness for table-file additions + in-Coq "
              "correspondence against a real NomsBlockStore")
@@ -19,37 +20,68 @@ LEVEL_TEXT = ("Proof (F/M for puts, flushes at arbitrary memtable sizes, commits
               "REFUTED for table-file additions): closed_preserved / root_reachable_present (everything reachable from the committed root is present), "
               "rejected_commit_noop and rejected_put_noop (a rejected write leaves root, table set and lock unchanged), cache_sound. "
               "closed_preserved_with_table_files_refuted: AddTableFilesToManifest skips its reference check while the store root is empty, so a later "
-              "accepted commit can reach a missing chunk — witness reproduced on the real NomsBlockStore (finding).")
+              "accepted commit can reach a missing chunk — witness reproduced on the real NomsBlockStore (finding). "
+              "closed_preserved_table_files_memtable_child_refuted: on an initialised store the check accepts children that exist only in the handle's "
+              "memtable; the memtable can be dropped and a later accepted commit reaches the missing chunk — also reproduced (second finding). "
+              "oracle_model_obs: the executable statement holds on the model's observations of every history without table-file additions.")
 LEVEL_NOTE = ("Trusted: Coq kernel, Go harness + Python glue. Modelled, not verified: table-file bytes (C01/C06), manifest atomicity (C02), GC and "
               "conjoin (chunk sets only grow here), ghost chunks of shallow clones (none in the histories), the gcBehavior_Block retry. Other writers "
               "are peers running the same protocol (EExt publishes only chunks whose references are present). ValueStore.WriteValue is cs.Put with the "
               "value's address walker (no buffering of its own in this tree), so the same histories cover it.")
-THEOREMS = ["closed_preserved", "root_reachable_present", "rejected_commit_noop", "rejected_put_noop", "cache_sound", "closed_preserved_with_table_files_refuted"]
-REFUTED = ["closed_preserved_with_table_files_refuted"]
+THEOREMS = ["closed_preserved", "root_reachable_present", "rejected_commit_noop", "rejected_put_noop", "cache_sound", "oracle_model_obs",
+            "closed_preserved_with_table_files_refuted", "closed_preserved_table_files_memtable_child_refuted"]
+REFUTED = ["closed_preserved_with_table_files_refuted", "closed_preserved_table_files_memtable_child_refuted"]
 RULE = ("histories of 4-16 events on one NomsBlockStore handle with memtable capacity 10-200 bytes: puts of chunks of 6-9 bytes whose declared children "
         "are written before / after / never, commits with the current or a stale |last|, rebases, peer commits (closed or dangling), table-file "
         "additions (closed, or with a missing child) on an initialised store; non-trivial = at least one successful commit; distinct by content")
 ASSUMPTIONS = ["table files are added only after the store has a non-empty root (on an uninitialised store the reference check is skipped: finding '%s'; "
                "the witness is replayed on every run once it is listed in known_findings.json)" % KNOWN_KEY,
+               "added table files reference only chunks of the same file, the committed base chunk, or a chunk that is never written (a file "
+               "whose child exists only in this handle's memtable/novel tables is accepted and the child can then be lost: finding '%s'; "
+               "witness replayed once listed)" % KNOWN_KEY2,
                "no GC / conjoin / ghost chunks during the histories"]
 REQUIRED_TAGS = ["put-dangling", "commit-ok", "commit-false", "commit-dangling", "ext-ok", "ext-noop", "addtables-ok", "addtables-dangling",
                  "rebase", "child-after-parent", "never-written-child", "small-cap"]
+
+WITNESS2 = {"cap": 100, "events": [
+    {"k": "put", "chunk": {"id": 3, "refs": [], "size": 8}}, {"k": "commit", "current": 3, "last": -1},
+    {"k": "put", "chunk": {"id": 1, "refs": [], "size": 8}},
+    {"k": "addtables", "chunks": [{"id": 5, "refs": [1], "size": 8}]},
+    {"k": "put", "chunk": {"id": 6, "refs": [44], "size": 8}}, {"k": "commit", "current": 6, "last": -1},
+    {"k": "put", "chunk": {"id": 7, "refs": [5], "size": 8}}, {"k": "commit", "current": 7, "last": -1}]}
 
 WITNESS = {"cap": 100, "events": [{"k": "addtables", "chunks": [{"id": 5, "refs": [9], "size": 8}]},
                                   {"k": "put", "chunk": {"id": 7, "refs": [5], "size": 8}},
                                   {"k": "commit", "current": 7, "last": 0}]}
 
 
-def known_open():
+def known_open(key=None):
     from lib import vlib
-    return any(f.get("key") == KNOWN_KEY and str(f.get("status", "")).startswith("open") for f in vlib.load_known(ID))
+    key = key or KNOWN_KEY
+    return any(f.get("key") == key and str(f.get("status", "")).startswith("open") for f in vlib.load_known(ID))
 
 
 def match_known(finding, case, out):
     """a table file with a missing child was accepted while the manifest root was empty"""
+    o = out.get("obs") or []
+    if finding.get("key") == KNOWN_KEY2:
+        # a table file whose child was only in the memtable / novel tables was accepted on an initialised store
+        prev, committed = 0, {30}
+        pending = set()
+        for ev, x in zip(case["events"], o):
+            if ev["k"] == "put" and x["res"] == "ok":
+                pending.add(ev["chunk"]["id"])
+            if ev["k"] == "commit" and x["res"] == "ok":
+                committed |= pending
+                pending = set()
+            if ev["k"] == "addtables" and x["res"] == "ok" and prev != 0:
+                ids = {c["id"] for c in ev["chunks"]}
+                if any(r not in ids and r not in committed for c in ev["chunks"] for r in c["refs"]):
+                    return True
+            prev = x["mroot"]
+        return False
     if finding.get("key") != KNOWN_KEY:
         return False
-    o = out.get("obs") or []
     prev = 0
     for ev, x in zip(case["events"], o):
         if ev["k"] == "addtables" and x["res"] == "ok" and prev == 0:
@@ -98,7 +130,7 @@ def gen_case(rng):
             events.append({"k": "ext", "root": cid if rng.random() < 0.85 else rng.choice([cid, 41]), "chunks": [specs[cid]]})
         elif k < 0.34 and with_tables:
             cid = rng.randint(60, 69)
-            refs = sorted(set(rng.choice(written + [30, 42]) for _ in range(rng.randint(0, 2))))
+            refs = sorted(set(rng.choice([30, 30, 42]) for _ in range(rng.randint(0, 2))))     # see ASSUMPTIONS / KNOWN_KEY2
             c = {"id": cid, "refs": [r for r in refs if r != cid], "size": 7}
             specs.setdefault(cid, c)
             events.append({"k": "addtables", "chunks": [specs[cid]]})
@@ -118,6 +150,8 @@ def gen_cases(rng, tier):
     cases = [gen_case(rng) for _ in range(n)]
     if known_open():
         cases.append(WITNESS)
+    if known_open(KNOWN_KEY2):
+        cases.append(WITNESS2)
     return cases
 
 
